@@ -55,7 +55,11 @@ def scalar(fd, rng, size_hint=None):
 def fill(msg, rng, p_set=0.7, depth=0):
     """populate msg in place with random field values"""
     for fd in msg.DESCRIPTOR.fields:
-        if rng.random() > p_set:
+        if rng.random() > p_set and not (fd.name == "uuid" and fd.is_repeated):
+            continue
+        if fd.is_repeated and fd.name == "uuid" and fd.type == FD.TYPE_UINT64:
+            # protocol contract: a 128-bit UUID is always sent as exactly [high, low]
+            getattr(msg, fd.name).extend([rng.choice([0, 1, 2**64 - 1, rng.getrandbits(64)]), rng.getrandbits(64)])
             continue
         if fd.is_repeated:
             n = rng.choice([0, 1, 2, 3])
